@@ -298,6 +298,23 @@ class Summarizer:
 SUMMARIZER = Summarizer()
 
 
+class _Fold(ast.NodeTransformer):
+    """Constant folding of literal container indexing: [a, b][0] -> a."""
+
+    def visit_Subscript(self, node: ast.Subscript):
+        self.generic_visit(node)
+        if isinstance(node.value, (ast.List, ast.Tuple)) and isinstance(node.slice, ast.Constant) and isinstance(node.slice.value, int):
+            k = node.slice.value
+            elts = node.value.elts
+            if -len(elts) <= k < len(elts) and not any(isinstance(x, ast.Starred) for x in elts):
+                return elts[k]
+        return node
+
+
+def fold(e: ast.expr) -> ast.expr:
+    return _Fold().visit(e)
+
+
 class Expander(ast.NodeTransformer):
     """Expand `self.X` / `super(..).X` / `self.m(args)` through the MRO of `ctx`.
 
@@ -329,10 +346,7 @@ class Expander(ast.NodeTransformer):
         self.expanded.append(m)
         try:
             body = SUMMARIZER.summarize(m.node, bind)
-            if m.kind == "classmethod":
-                # inside a classmethod `cls` plays the role of self's class
-                pass
-            return self.visit(body)
+            return fold(self.visit(body))
         finally:
             self.stack.pop()
 
